@@ -249,6 +249,14 @@ func cmpFact(f fact) (token.Token, ssa.Value, ssa.Value, bool) {
 	}
 	switch op {
 	case token.EQL, token.NEQ, token.LSS, token.GEQ, token.GTR, token.LEQ:
+		// canonical operand order: a constant (incl. nil) goes to the right, so that `0 < n`, `nil != err`
+		// and `n > 0`, `err != nil` give the same decoded fact
+		if _, xc := b.X.(*ssa.Const); xc {
+			if _, yc := b.Y.(*ssa.Const); !yc {
+				mirror := map[token.Token]token.Token{token.EQL: token.EQL, token.NEQ: token.NEQ, token.LSS: token.GTR, token.GTR: token.LSS, token.LEQ: token.GEQ, token.GEQ: token.LEQ}
+				return mirror[op], b.Y, b.X, true
+			}
+		}
 		return op, b.X, b.Y, true
 	}
 	return 0, nil, nil, false
